@@ -350,6 +350,12 @@ impl Check for VaultCheck {
     fn components(&self) -> serde_json::Value {
         serde_json::json!({"real": ["examples/fungible-vault (from source)", "vault::Vault::*", "math::mul_div_i128", "fungible Base (share token and asset token: balances, allowances with expiry)"], "stub": ["Wallet (accept-all signature check)", "Asset::transfer/transfer_from fault point: trap before / after moving funds (scripted)"]})
     }
+    fn dup_ok(&self, _s: &Step) -> bool {
+        true
+    }
+    fn reorder_ok(&self) -> bool {
+        true
+    }
     fn property_of(&self, check: &str) -> std::vec::Vec<&'static str> {
         if check.starts_with("events.") {
             vec!["C01"]
